@@ -139,7 +139,7 @@ def partition(chk, P):
         t = blk.get("term")
         if t and t["k"] == "switch" and _memname(t["cond"]) in ("qMethod", "uMethod", "udotMethod"):
             sw[_memname(t["cond"])[:-len("Method")]] = b
-    chk.judge(sorted(sw) == sorted(LEVELS), "PARTITION", "three-switches", f.loc, "switches found over %s" % sorted(sw))
+    chk.shape(sorted(sw) == sorted(LEVELS), "PARTITION", "three-switches", f.loc, "switches found over %s" % sorted(sw))
     pushes = [(b, i, e) for b, i, e in f.calls() if str(e.get("fn", "")).endswith("::push_back") and _memname(call_obj(e)) and
               re.match(r"(pres|zero|free)(Q|U|UDot)$|presForce$", _memname(call_obj(e)))]
     accounted = set()
@@ -240,7 +240,7 @@ def lockmap(chk, P):
     ldecls = {d["var"]: d for _, _, d in f.events(lambda d: d["k"] == "decl")}
     LL = {v for v, d in ldecls.items() if sx_find(d.get("init") or [], lambda y: y[0] == "mem" and _last(y[2]) == "mobilizerLockLevel")}
     NQ = {v for v, d in ldecls.items() if sx_find(d.get("init") or [], lambda y: y[0] == "mem" and _last(y[2]) == "nQInUse")}
-    chk.judge(len(LL) == 1 and len(NQ) >= 1, "LOCKMAP", "lock-level-and-q-count-variables", f.loc, "lock level read from mobilizerLockLevel into %s; q count from nQInUse into %s" % (sorted(LL), sorted(NQ)))
+    chk.shape(len(LL) == 1 and len(NQ) >= 1, "LOCKMAP", "lock-level-and-q-count-variables", f.loc, "lock level read from mobilizerLockLevel into %s; q count from nQInUse into %s" % (sorted(LL), sorted(NQ)))
     asg = [(b, i, e) for b, i, e in f.events(lambda e: e["k"] == "assign" and _memname(e["lhs"]) in ("qMethod", "uMethod", "udotMethod"))]
     # chained assignment a = b = c = Zero shows as nested assigns; collect every (field, enumerator)
     def pairs(e):
@@ -272,7 +272,7 @@ def lockmap(chk, P):
                           "Prescribed is chosen only when a locked value in lockedUs is non-zero")
     # precedence: calcAllMethods only on the not-locked side, under hasMotion && !disabled, args in order
     cam = [(b, i, e) for b, i, e in f.calls() if str(e.get("fn", "")).endswith("Motion::calcAllMethods")]
-    chk.judge(len(cam) == 1, "LOCKMAP", "one-calcAllMethods", f.loc, "found %d" % len(cam))
+    chk.shape(len(cam) == 1, "LOCKMAP", "one-calcAllMethods", f.loc, "found %d" % len(cam))
     if len(cam) == 1:
         b, i, e = cam[0]
         locked = branch_edges(f, lambda c: isinstance(c, list) and c[0] == "op" and c[1] == "!=" and var_of(c[2]) in LL and "SimTK::Motion::NoLevel" in sx_enums(c[3]), 0)
